@@ -65,7 +65,7 @@ def main():
                 print(f"NOBUILD {name}: {b.stderr.strip()[:300]}"); bad += 1; continue
             tmsg = ""
             if tests:
-                t = subprocess.run(["go", "test", "-vet=off", "-count=1", "./..."], cwd=d, env=ENV, capture_output=True, text=True)
+                t = subprocess.run(["go", "test", "-vet=off", "-count=1", "-timeout", "90s", "./..."], cwd=d, env=ENV, capture_output=True, text=True)
                 tmsg = " tests=" + ("pass" if t.returncode == 0 else "FAIL")
             rc, out = run_check(prop, d, evdir)
             ok = rc == 1 and ("VIOLATION property=" + prop) in out
